@@ -42,6 +42,7 @@ NX_AT_IMPORT = _nx_importable()
 PROPERTY = "C12"
 LEAN_TARGETS = ["QcelVerif.Props.C12", "QcelVerif.Lemmas.QuatSurj", "QcelVerif.Lemmas.RigidMotion", "QcelVerif.Props.C12Full",
                 "QcelVerif.Model.UnoOrderings", "QcelVerif.Lemmas.UnoEnum", "QcelVerif.Lemmas.UnoAssemble", "QcelVerif.Props.C12Uno",
+                "QcelVerif.Model.KabschUnique", "QcelVerif.Lemmas.RotUnique", "QcelVerif.Props.C12Unique",
                 "QcelVerif.Driver.C12"]
 DRIVER = "QcelVerif/Driver/C12.lean"
 THEOREMS = [
@@ -82,6 +83,27 @@ THEOREMS = [
     ("QcelVerif.Uno.true_class_is_candidate", "per class: exact certificate + cutoff > 0 + true map preserving class and distances => the true map restricted to the class is one of the orderings filter_hungarian_uno yields"),
     ("QcelVerif.Uno.true_map_is_candidate", "for any number of atoms and classes: if the true map is a bijection respecting labels and all reciprocal distances (exact rigid copy + permutation), every class's solver answer is an exact certificate and uno_cutoff > 0, then candidatesUno (classes, per-class matchings, product, assembly — align.py:318-328,386-400,426-431) returns a list containing [pi 0, ..., pi (n-1)]"),
     ("QcelVerif.Uno.uno_recovery_best_le", "with B787.best_is_min: if the search runs to completion over candidate list L and the true map is in L, the returned rounded RMSD is <= the trial RMSD of the true map (which Kabsch.recovery_rigid bounds by the certificate slack)"),
+    # --- the uniqueness clause "for non-collinear molecules the rotation and shift are those that were applied" (Props/C12Unique.lean)
+    ("QcelVerif.Kabsch.rotation_unique_of_fixes_two", "a 3x3 matrix with U U^T = I and det U = +1 that fixes (row action, as geom.dot(U)) two vectors a, b with a x b != 0 is the identity (it preserves cross products, so it fixes a x b; Cramer in the basis a, b, a x b) — every linearly ordered field"),
+    ("QcelVerif.Kabsch.rotation_unique_of_fixes_two_field", "the same over EVERY field, with the non-degeneracy stated as |a x b|^2 != 0"),
+    ("QcelVerif.Kabsch.rotation_unique_of_fixes_two_col", "the same in the column convention U a = a, U b = b"),
+    ("QcelVerif.Kabsch.nonCollinear_iff_not_onLine", "NonCollinear c (two position vectors with a x b != 0) <-> not all position vectors of c on one line through the origin (any field)"),
+    ("QcelVerif.Kabsch.nonCollinear_centre_iff", "NonCollinear (centre g) <-> the atoms of g are not all on one line through the centroid of g"),
+    ("QcelVerif.Kabsch.nonCollinear_centre_iff_no_line", "for a non-empty geometry: NonCollinear (centre g) <-> the atoms are not all on one line through ANY point (the centroid of points of a line lies on it)"),
+    ("QcelVerif.Kabsch.recovery_rotation_unique", "two proper rotations R1, R2 with c.R1 = c.R2 for every atom c of a NonCollinear geometry are equal"),
+    ("QcelVerif.Kabsch.motion_unique", "if every reference atom r, moved to c = r.A + t (A proper) and sent through the recipe (c - T).U (U proper), comes back to r EXACTLY and the reference is non-collinear about its centroid, then U = A^T (= A^-1) and T = t"),
+    ("QcelVerif.Kabsch.align_recovers_motion", "on the model's alignCoords (models/align.py:70-87): second geometry = rotated, translated and (through the atom map) shuffled copy, alignCoords false T U amap C = some R exactly, reference NonCollinear about its centroid => rotation U = A^T and shift T = t, the applied ones in the code's convention aligned = (c - shift).rotation"),
+    ("QcelVerif.Kabsch.align_recovers_motion_fixed_map", "fixed (identity) atom map: additionally the shift is the one kabsch_align computes from the centroids, T = cbar - U.rbar (align.py:496)"),
+    ("QcelVerif.Kabsch.kabschAlign_recovers_motion", "the same stated on the output record of the model kabschAlign for any unit eigenvector q: if its recipe superimposes the moved copy exactly, its U is A^T and its T is t"),
+    ("QcelVerif.Kabsch.shift_determined_by_centroids", "for a moved copy c = r.A + t of a non-empty geometry: t = cbar - A^T rbar (centroid of the copy minus rotated centroid of the reference)"),
+    ("QcelVerif.Kabsch.rotation_close_of_close_on_two", "quantitative: R1, R2 proper, |a.R1 - a.R2|^2 <= e2, |b.R1 - b.R2|^2 <= e2, |a|^2,|b|^2 <= L2, g = |a x b|^2 > 0 => g |v.R1 - v.R2|^2 <= 16 L2 e2 for every v with |v|^2 <= 1, i.e. |v.(R1-R2)| <= (4 L / sqrt g) eps; no square roots, holds over Q"),
+    ("QcelVerif.Kabsch.rotation_entries_close", "hence every one of the nine entries d of R1 - R2 satisfies |a x b|^2 d^2 <= 16 L2 e2 (|d| <= C(L,g) eps with C = 4L/sqrt g)"),
+    ("QcelVerif.Kabsch.recovery_rotation_close", "on a geometry: residual^2 <= e2 and |c|^2 <= L2 for every atom, NonCollinearBy m (two atoms with |a x b|^2 >= m > 0) => m |row of R1-R2|^2 <= 16 L2 e2"),
+    ("QcelVerif.Kabsch.collinear_not_unique", "negative side: for a collinear centred set (all position vectors on one line through the origin) there are two DIFFERENT proper rotations agreeing on every atom (identity and the half-turn about the line)"),
+    ("QcelVerif.Kabsch.rotation_determined_iff_nonCollinear", "the proper rotation is determined by its action on the atoms of c if and only if NonCollinear c: the qualifier of the property is exactly right"),
+    ("QcelVerif.Kabsch.maxCross2_pos_iff", "the driver's exact margin maxCross2 c = max over pairs of |a x b|^2 is positive iff NonCollinear c"),
+    ("QcelVerif.Kabsch.nonCollinearBy_iff_le_maxCross2", "for m > 0: two atoms with |a x b|^2 >= m exist iff m <= maxCross2 c (the oracle's class g >= G_MIN is NonCollinearBy G_MIN)"),
+    ("QcelVerif.Kabsch.maxCross2_map_rowMul", "the margin of a rotated copy equals the margin of the original (proper rotations preserve |a x b|^2)"),
 ]
 NX_TEXT_ABSENT = (
     "networkx is absent: algorithm='hungarian_uno' cannot run; wherever the code would ask for it (B787's mirror pre-test hard-codes the default, "
@@ -107,6 +129,7 @@ TRUSTED_BASE = [
     "numpy.linalg.eigh is NOT modelled and NOT trusted: its eigenvector is captured per call and certified by the proved checker isTopEig (exact rational arithmetic) — accepted certificate => optimality theorem applies to that call",
     "numpy elementwise IEEE arithmetic / np.linalg.norm / np.around / distance_matrix (sqrt): compared against exact rational values under stated tolerances, distance matrices and per-trial rounded RMSDs are inputs of the discrete models",
     "harness/c12.py: generators, the capture wrappers (numpy.linalg.eigh, align.kabsch_align, align.B787, align._plausible_atom_orderings, align.linear_sum_assignment, align.uno), the Python oracle (uses numpy.linalg.svd for the independent optimum)",
+    "Model/KabschUnique.lean (cross product, NonCollinear, maxCross2 / collinearityMargin: definitions the theorems of Props/C12Unique.lean are about) — executed by driver op N on the reference's doubles; the harness recomputes the same number with Python integers and any difference in the value, the attaining pair or its two square norms is a model/harness disagreement (mismatch:N)",
     "hand-written model Model/UnoOrderings.lean of the hungarian_uno candidate generation (align.py:296-328, 346-400, 407-431), tied by differential correspondence per call: cost matrix handed to the solver (exact (sumCC[i]-sumRR[j])^2 from independently computed reciprocal distances vs the captured doubles, tolerance 2|a-b|d + d^2 with d = 1e-12(|a|+|b|+1)), zero-edge list (exact), set of matchings (exact, with multiplicity), candidate orderings (exact, as a multiset)",
     "the Hungarian solver (linear_sum_assignment) is property C14's subject: here its reduced matrix is an input of the model, and C14's exact checker certGap is evaluated on every class call (gap <= 1e-9 * (1 + max cost) * k demanded); theorems (b),(c) assume an EXACT certificate — the float gap between 'certGap small' and 'certOK' is not bridged by proof",
     "uno (gph_uno_bipartite.py, networkx simple_cycles etc.) is NOT modelled as an algorithm: only its output SET is, and it is compared per call with the model's proved-complete enumeration; distance_matrix / np.reciprocal (sqrt, division) are inputs of the model",
@@ -115,15 +138,17 @@ ASSUMPTIONS = [
     "weight=None (the only way B787 calls kabsch_align); do_plot off; verbose=0",
     NX_TEXT,
     "permutative search only up to 7 atoms and class sizes <= 4 (cost n!); unrelated pairs are aligned with the fixed map only (the property speaks of a known correspondence)",
-    "geometries of 2-30 atoms, pairwise distance > 0.5 bohr, coordinates within about +-12 bohr before the shift in [-10,10]^3 (pivot block: shift = pv - pv.U, redrawn until inside that cube); no 'nearly collinear' (1e-7 off-axis) inputs — exactly collinear, planar, symmetric and generic ones are generated",
+    "geometries of 2-30 atoms, pairwise distance > 0.5 bohr, coordinates within about +-12 bohr before the shift in [-10,10]^3 (pivot block: shift = pv - pv.U, redrawn until inside that cube); no 'nearly collinear' (1e-7 off-axis) inputs — exactly collinear, planar, symmetric, generic and moderately thin ones (family 'thin': atoms within w of a line, 3e-3 <= w <= 0.3 bohr, rigid copies with the fixed atom map only) are generated",
     "'mirror images are matched only when requested' is read in both directions: unrequested -> mirror flag never set (all inputs); requested + chiral generic geometry (third singular value >= 0.3 bohr) -> the mirror match is found (kind oracle:mirror_requested_not_found)",
     "the degenerate-atom-order mirror block generates only clearly chiral geometries (third singular value >= 0.35 bohr): for a NEARLY planar molecule with a fixed atom map, mols_align=True accepts the unmirrored trial (RMSD below a_convergence = 1e-3 A) before the mirror trial is made and B787's own 1e-4 post-check raises — the fixed-map sibling of C12-molsalign-truncation, seen once (replays/C12-6108cfd6b97c.json), reported and not generated",
     "known finding C12-molsalign-truncation: with mols_align truthy the permutation search stops at the first candidate below a_convergence; a deliberate nearly-symmetric block exercises it and the class is matched on the recorded trial RMSDs only",
-    "full optimality over SO(3) is proved over R (Props/C12Full.lean: surjectivity of unit quaternions onto SO(3), optimality against every proper rotation and every proper rigid motion); over Q, where the driver executes, the comparison family is the rational rotations U(p)/|p|^2; rotation uniqueness for non-collinear sets is checked by the oracle only",
+    "full optimality over SO(3) is proved over R (Props/C12Full.lean: surjectivity of unit quaternions onto SO(3), optimality against every proper rotation and every proper rigid motion); over Q, where the driver executes, the comparison family is the rational rotations U(p)/|p|^2",
+    "uniqueness clause (Props/C12Unique.lean): PROVED for exact superposition over every linearly ordered field (rotation = A^T, shift = t = cbar - U rbar, on the model's alignCoords, any atom map that is the applied one; NonCollinear shown necessary and sufficient), and quantitatively for a superposition to within eps (|entry of rotation - A^T| <= 4 L eps / sqrt g). NOT proved: that the floating-point aligner reaches a given eps (the residual is measured per case), a quantitative bound for the shift (harness uses |T - t| <= |rbar| sqrt3 rowbound + |mean residual|, derived by hand from T - t = rbar (A - U^T) - dbar U^T), and the mirror=True recipe (the oracle applies the statement after mirroring the second geometry)",
+    "recovery of rotation and shift is demanded exactly on the class g >= G_MIN = 1e-5 bohr^4, g = max_{i<j} |(r_i - rbar) x (r_j - rbar)|^2 computed exactly by the Lean driver (op N) on the reference's doubles, and only when the returned atom map / mirror flag are the applied ones; tolerances 1e-8 (rotation entries) / 1e-7 bohr (shift) on the former singular-value class (s1 >= 0.3, s1 >= 0.03 s0 — contained in the margin class for n <= 30), and max(those, theorem bound with the measured residual + orthogonality defect) on the rest of the margin class; below the margin (exactly or nearly collinear: the family 'collinear' has g ~ 1e-28 from rounding) nothing is demanded of rotation and shift",
     "the permutative filter (np.allclose, atol=1.0) is modelled with exact rational comparison; knife-edge inputs (difference within one ulp of the tolerance) are not generated",
 ]
 RULE = (
-    "cases = (reference geometry family {generic, planar, collinear, symmetric polyhedra/polygons, lattice} of 2-30 atoms with class labels, "
+    "cases = (reference geometry family {generic, planar, collinear, symmetric polyhedra/polygons, lattice, chain, thin} of 2-30 atoms with class labels, "
     "applied motion = exact rational rotation U(p)/|p|^2 from an integer quaternion (identity and tiny rotations included) x shift in [-10,10]^3 x "
     "atom permutation (<= 7 atoms) x optional mirror, or an unrelated / noisy second geometry) x call route {kabsch_align, B787 fixed map, "
     "B787 permutative, B787 run_mirror, Molecule.scramble(do_test)+Molecule.align} x flags {mols_align, run_to_completion, run_resorting}. "
@@ -139,6 +164,9 @@ RULE = (
     "of its trace). A 'mirror-degenerate-order' block: clearly chiral molecules whose three atoms listed first / last in the SECOND geometry are "
     "collinear, or whose first four are coplanar (axially chiral allene / alkyne backbones listed first), mirrored or not, run_mirror mostly "
     "requested, B787 (both searches) and Molecule routes. "
+    "A 'thin' block (appended last): moderately thin molecules (atoms within w of a line, 3e-3 <= w <= 0.3 bohr, 3-30 atoms), rigid copies, "
+    "kabsch_align and B787 with the fixed map, a quarter of them with pivot placements — inside the margin class g >= 1e-5 bohr^4 of the "
+    "uniqueness theorems but mostly outside the former singular-value class; every rigid case sends one N line (exact margin) to the driver. "
     "A case is distinct by (family, n, motion, permutation, route, flags[, pivot class, first atom of the second geometry, special rotation, "
     "degenerate prefix]) and non-trivial when the motion is not the identity, or the pair is unrelated/noisy."
     + (" With networkx: four further blocks through the DEFAULT search hungarian_uno — shuffled rigid copies of 2-30 atoms via B787 (default and "
@@ -154,7 +182,12 @@ LEVEL_TEXT = (
     "align_coordinates and the B787 trial loop; optimality holds for every call whose captured eigenvector passes the proved certificate "
     "checker (checked on every generated call), against every proper rotation and every proper rigid motion over R (surjectivity of unit "
     "quaternions onto SO(3) is proved); eigh itself, the float rounding "
-    "and rotation uniqueness are not proved; "
+    "are not proved; the uniqueness clause is proved (Props/C12Unique.lean): a recipe that superimposes a rotated+translated(+shuffled) copy of a "
+    "molecule that is non-collinear about its centroid EXACTLY has rotation = inverse of the applied one and shift = the applied one (= cbar - U rbar), "
+    "stated on the model's alignCoords; non-collinearity is necessary and sufficient (explicit second rotation for collinear sets); and a recipe "
+    "that superimposes to within eps has every rotation entry within 4 L eps / sqrt(g) of the applied inverse (g = |a x b|^2 of two atoms about the "
+    "centroid, L their larger norm) — partial: that the float aligner reaches a small eps is measured per case, not proved, and the shift has "
+    "only the exact statement; the oracle demands recovery exactly on the class g >= 1e-5 bohr^4 with g evaluated exactly by the Lean driver; "
     + ("the default search hungarian_uno is modelled (Model/UnoOrderings.lean) and proved, for every size, to enumerate exactly the perfect "
        "matchings of the zero-edge graph and — given an exact C14 certificate per class, a positive cutoff and an exact rigid copy + permutation — "
        "to contain the true atom map among its candidates (cost (sumCC-sumRR)^2 is exactly 0 along it), so that with best_is_min the returned RMSD "
@@ -164,7 +197,7 @@ LEVEL_TEXT = (
        "re-proved here." if NX_AT_IMPORT else
        "hungarian_uno candidate generation is modelled and proved (Props/C12Uno.lean) but NOT exercised in this run (networkx absent: 'permutative' substituted).")
 )
-TECHNIQUE = "Lean 4 proof (ring identities + exact certificate checker soundness + matching-enumeration completeness) + per-call certification of numpy.linalg.eigh + differential correspondence + Python oracle"
+TECHNIQUE = "Lean 4 proof (ring identities + exact certificate checker soundness + matching-enumeration completeness + rotation uniqueness/stability on non-collinear sets) + per-call certification of numpy.linalg.eigh + differential correspondence + Python oracle"
 
 B2A = None  # filled from qcelemental.constants on first use
 DELTA = Fraction(1, 10**11)  # | |q|^2 - 1 | allowed in the certificate
@@ -479,6 +512,23 @@ def gen_geometry(rng, fam, n):
             pts = list(itertools.product(range(-2, 3), repeat=3))
             sel = rng.sample(pts, n)
             G = np.array(sel, dtype=float) * rng.choice([1.0, 1.5, 2.0])
+        elif fam == "thin":
+            # moderately thin, NOT collinear: atoms within w of a line, w in [3e-3, 0.3] bohr (second singular value of the centred
+            # geometry ~ w, so mostly outside the former s1 >= 0.3 / s1 >= 0.03 s0 class, while the margin
+            # max |r~_i x r~_j|^2 ~ (L w)^2 stays >= 1e-5: the class Props/C12Unique.lean adds to the oracle's demand)
+            a = np.array([rng.uniform(-1, 1) for _ in range(3)])
+            if rng.random() < 0.3:
+                a = np.array(rng.choice([[1.0, 0, 0], [0, 1.0, 0], [0, 0, 1.0], [1.0, 1.0, 0]]))
+            a = a / np.linalg.norm(a)
+            u = np.cross(a, np.array([0.3, -0.5, 0.8]))
+            u = u / np.linalg.norm(u)
+            v = np.cross(a, u)
+            w = 10.0 ** rng.uniform(math.log10(3e-3), math.log10(0.3))
+            o = np.array([rng.uniform(-2, 2) for _ in range(3)]) if rng.random() < 0.6 else np.zeros(3)
+            ts = sorted(rng.sample(range(-12, 13), n)) if n <= 25 else list(range(-15, -15 + n))
+            G = np.array([o + (0.9 * t + rng.uniform(-0.1, 0.1)) * a + rng.uniform(-w, w) * u + rng.uniform(-w, w) * v for t in ts])
+            k = rng.randrange(n)  # one atom at the full width, so that the width is attained
+            G[k] = G[k] + w * u
         elif fam == "chain":
             # elongated, chain-like, non-collinear: zigzag / helix along an axis (second moment along the axis dominates)
             step = rng.uniform(1.0, 1.6)
@@ -962,7 +1012,21 @@ def gen_cases(ctx: Ctx):
         fl = {"run_mirror": mirrored or rng.random() < 0.3, "run_resorting": rng.random() < 0.2}
         yield make_case(rng, "molecule", "generic", n, related="rigid", perm=rng.random() < 0.5, mirror=mirrored, flags=fl, maxclass=3,
                         prefix=rng.choice(["first3", "last3", "coplanar4"]), tag="mirror-degenerate-order")
+    def thin_block():
+        # --- T: moderately thin (nearly but not collinear) molecules, rigid copies, known atom map: the margin class of
+        #        Props/C12Unique.lean beyond the former singular-value class (appended after every other block)
+        for _ in range(sc(260, 1200)):
+            n = rng.randint(3, 30)
+            if rng.random() < 0.4:
+                yield make_case(rng, "kabsch", "thin", n, related="rigid", tag="thin",
+                                pivot=(rng.choice(PIVOTS) if rng.random() < 0.25 else None))
+            else:
+                fl = {"atoms_map": True, "mols_align": rng.choice([False, False, True])}
+                yield make_case(rng, "b787", "thin", n, related="rigid", flags=fl, tag="thin",
+                                pivot=(rng.choice(PIVOTS) if rng.random() < 0.25 else None))
+
     if not HAVE_NX:
+        yield from thin_block()
         return
     # ================= blocks that need networkx: B787's DEFAULT search algorithm='hungarian_uno' =================
     # (appended after every other block, so the stream above is the same with and without networkx)
@@ -1043,6 +1107,7 @@ def gen_cases(ctx: Ctx):
         c = make_case(rng, "plaus", fam, n, related=rel, perm=(rel != "unrelated"), flags={}, maxclass=mc, tag="uno-direct")
         c["cutmode"] = cm
         yield c
+    yield from thin_block()
 
 
 # ------------------------------------------------------------------------------------------------
@@ -1529,8 +1594,46 @@ def rot_to_quat(M):
     return q / nq if nq > 0 else np.array([1.0, 0, 0, 0])
 
 
-def oracle_recovery(case, case_id, out: Outcome, R, rm, near, slack, rot, shift, amap, mirror, aligned):
-    """rigid copies: RMSD ~ 0, atom-by-atom superposition, rotation and shift recovered (non-collinear)"""
+MODEL_AVAILABLE = True  # set per run (run_cases) from ctx.model_available: without the driver the margin comes from margin_exact
+G_MIN = Fraction(1, 10**5)  # bohr^4: margin of non-collinearity (max_{i<j} |r~_i x r~_j|^2 about the centroid) above which recovery is demanded
+
+
+def margin_exact(R):
+    """exact max_{i<j} |(r_i - rbar) x (r_j - rbar)|^2 of the doubles of R (Python integers): returns
+    (g, i, j, |r~_i|^2, |r~_j|^2, max_k |r~_k|^2) as Fractions — the same quantity as Model/KabschUnique.lean
+    `collinearityMargin` (driver op N); used to cross-check the driver and as the fallback when the model is unavailable"""
+    n = len(R)
+    fr_ = [[Fraction(float(x)) for x in row] for row in np.asarray(R, dtype=float)]
+    den = 1
+    for row in fr_:
+        for x in row:
+            if x.denominator > den:
+                den = x.denominator  # doubles: every denominator is a power of two, so the largest one is common
+    ints = [[int(x * den) for x in row] for row in fr_]
+    sm = [sum(row[k] for row in ints) for k in range(3)]
+    cen = [[n * row[k] - sm[k] for k in range(3)] for row in ints]  # (n * den) * (r_i - rbar)
+    scale2 = (n * den) ** 2
+    nr = [v[0] * v[0] + v[1] * v[1] + v[2] * v[2] for v in cen]
+    best, bi, bj = 0, 0, 0
+    for a in range(n):
+        ax, ay, az = cen[a]
+        for b in range(a + 1, n):
+            bx, by, bz = cen[b]
+            cx, cy, cz = ay * bz - az * by, az * bx - ax * bz, ax * by - ay * bx
+            v = cx * cx + cy * cy + cz * cz
+            if v > best:
+                best, bi, bj = v, a, b
+    return (Fraction(best, scale2 * scale2), bi, bj, Fraction(nr[bi], scale2), Fraction(nr[bj], scale2), Fraction(max(nr), scale2))
+
+
+def oracle_recovery(case, case_id, out: Outcome, R, rm, near, slack, rot, shift, amap, mirror, aligned, pend=None):
+    """rigid copies: RMSD ~ 0, atom-by-atom superposition, rotation and shift recovered (non-collinear).
+
+    The class on which rotation and shift are demanded is the one of Props/C12Unique.lean: NonCollinear about the centroid
+    with the stated margin G_MIN, g = max_{i<j} |r~_i x r~_j|^2 >= G_MIN, g computed EXACTLY by the Lean driver (op N,
+    `collinearityMargin`) on the doubles of the reference and cross-checked here with exact integer arithmetic (value, attaining pair and its norms must be identical).  Every case the
+    former singular-value test demanded (s1 >= 0.3 and s1 >= 0.03 s0) lies in the class for n <= 30 (sum of the
+    |r~_i x r~_j|^2 over pairs >= s0^2 s1^2 >= 0.0081, at most 435 pairs); should one ever not, it is demanded all the same."""
     V = out.violations
     n = len(R)
     kind = "oracle:nearcoincident_shortcut" if near else None
@@ -1547,16 +1650,78 @@ def oracle_recovery(case, case_id, out: Outcome, R, rm, near, slack, rot, shift,
     inv = [pm.index(i) for i in range(n)]
     A = case_rotation(case)
     sh = np.array([float.fromhex(x) for x in case["shift"]])
-    if len(s) >= 2 and s[1] >= 0.3 and s[1] >= 0.03 * s[0] and list(amap) == inv and bool(mirror) == bool(case["mirrored"]):
+    old_class = bool(len(s) >= 2 and s[1] >= 0.3 and s[1] >= 0.03 * s[0])
+    map_ok = list(amap) == inv and bool(mirror) == bool(case["mirrored"])
+    R = np.array(R, dtype=float)
+    rot = np.array(rot, dtype=float)
+    shift = np.array(shift, dtype=float)
+    aligned = np.array(aligned, dtype=float)
+    py = margin_exact(R)
+
+    def decide(g, L2, source):
+        new_class = g >= G_MIN
+        out.count("margin:g>=1e-5 (NonCollinear with margin)" if new_class else ("margin:0<g<1e-5" if g > 0 else "margin:g=0 (exactly collinear doubles)"))
+        if old_class and not new_class:
+            out.count("recovery:former singular-value class but below the margin (demanded anyway)")
+        if not ((new_class or old_class) and map_ok):
+            out.count("recovery:motion_not_unique(collinear/symmetric/other map)")
+            return
         out.count("recovery:motion_checked")
-        dr = float(np.max(np.abs(np.asarray(rot) - A.T)))
-        ds = float(np.max(np.abs(np.asarray(shift) - sh)))
-        if dr > 1e-8:
-            V.append(Finding(kind or "oracle:recovery_rotation", case_id, observed=np.asarray(rot).tolist(), expected=A.T.tolist(), detail=f"rotation differs from the inverse of the applied one by {dr:.3e}"))
-        if ds > 1e-7:
-            V.append(Finding(kind or "oracle:recovery_shift", case_id, observed=np.asarray(shift).tolist(), expected=sh.tolist(), detail=f"shift differs from the applied one by {ds:.3e}"))
+        dr = float(np.max(np.abs(rot - A.T)))
+        ds = float(np.max(np.abs(shift - sh)))
+        if old_class:
+            tol_r, tol_s = 1e-8, 1e-7
+        else:
+            # outside the former class the tolerance is the one Props/C12Unique.lean `rotation_entries_close` proves:
+            # |entry of (rotation - A^T)| <= 4 L eps / sqrt(g), eps = residual of the superposition about the centroids,
+            # L^2 = max |r~|^2 of the two atoms attaining g; float allowance: orthogonality defect of the returned matrix
+            out.count("recovery:motion_checked(margin class beyond the former singular-value class, theorem tolerance)")
+            dev = aligned - R
+            dbar = dev.mean(0)
+            eps = float(np.max(np.linalg.norm(dev - dbar, axis=1)))
+            L = math.sqrt(float(L2))
+            scale = max(1.0, float(np.max(np.abs(R))), float(np.max(np.abs(sh))))
+            orth = float(np.max(np.abs(rot @ rot.T - np.eye(3)))) + float(np.max(np.abs(A @ A.T - np.eye(3))))
+            cfac = 4.0 * L / math.sqrt(float(g))
+            rowb = cfac * (eps + 4.0 * L * orth + 1e-14 * scale) + 4.0 * orth + 1e-12
+            tol_r = max(1e-8, rowb)
+            tol_s = max(1e-7, float(np.linalg.norm(R.mean(0))) * math.sqrt(3.0) * rowb + float(np.linalg.norm(dbar)) + 1e-12 * scale)
+        if dr > tol_r:
+            V.append(Finding(kind or "oracle:recovery_rotation", case_id, observed=rot.tolist(), expected=A.T.tolist(),
+                             detail=f"rotation differs from the inverse of the applied one by {dr:.3e} (> {tol_r:.3e}; margin g={float(g):.3e} from {source})"))
+        if ds > tol_s:
+            V.append(Finding(kind or "oracle:recovery_shift", case_id, observed=shift.tolist(), expected=sh.tolist(),
+                             detail=f"shift differs from the applied one by {ds:.3e} (> {tol_s:.3e}; margin g={float(g):.3e} from {source})"))
+
+    def cmp(ans):
+        # driver op N: the exact margin; must be the number computed here, and the pair it names must attain it
+        bad = None
+        try:
+            if not ans.startswith("ok "):
+                raise ValueError(ans)
+            d = parse_kv(ans)
+            g = parse_rat(d["g"])
+            i, j = int(d["i"]), int(d["j"])
+            ni2, nj2 = parse_rat(d["ni2"]), parse_rat(d["nj2"])
+            if g != py[0] or parse_rat(d["arg"]) != g or parse_rat(d["lmax2"]) != py[5]:
+                bad = f"driver g={d['g']} arg={d['arg']} lmax2={d['lmax2']}; exact integer arithmetic here g={py[0]} lmax2={py[5]}"
+            elif (i, j, ni2, nj2) != (py[1], py[2], py[3], py[4]):
+                # same scan order and strict replacement on both sides: the first pair attaining the maximum
+                bad = f"driver pair ({i},{j}) |r~_i|^2={ni2} |r~_j|^2={nj2}; here pair ({py[1]},{py[2]}) {py[3]} {py[4]}"
+        except Exception as e:  # noqa
+            bad = f"unreadable answer {ans[:120]!r} ({type(e).__name__})"
+        out.count("N:lines")
+        if bad:
+            out.mismatches.append(Finding("mismatch:N", case_id, observed=bad, expected="driver's collinearityMargin = exact value", detail="non-collinearity margin"))
+            decide(py[0], max(py[3], py[4]), "harness integers (driver disagreed)")
+        else:
+            decide(g, max(ni2, nj2), "Lean driver, exact")
+
+    if pend is not None and MODEL_AVAILABLE:
+        pend.append(Pending("N|" + frs(R), cmp))
     else:
-        out.count("recovery:motion_not_unique(collinear/symmetric/other map)")
+        out.count("N:model unavailable, margin from harness integers")
+        decide(py[0], max(py[3], py[4]), "harness integers (model unavailable)")
 
 
 def count_centroid_relation(out: Outcome, R, C, mirrored, rotated):
@@ -1642,7 +1807,7 @@ def evaluate(case, out: Outcome, pend):
         r = oracle_recipe(case, case_id, out, R, C, None, None, rm0, RR, TT, ident_map, False, run_mirror=False, known_map=True, route=route)
         if r and case["related"] in ("rigid", "near") and not case["mirrored"]:
             rm, near, slack = r
-            oracle_recovery(case, case_id, out, R, rm, near, slack, RR, TT, ident_map, False, apply_recipe(C, TT, RR, ident_map, False))
+            oracle_recovery(case, case_id, out, R, rm, near, slack, RR, TT, ident_map, False, apply_recipe(C, TT, RR, ident_map, False), pend)
         q = kab["eigh"][0][2][:, -1] if kab["eigh"] else np.array([1.0, 0, 0, 0])
         pend.append(Pending(k_line(R, C, ident_map, False, q),
                             cmp_kabsch(case_id, R, C, ident_map, False, kab, np.asarray(RR), np.asarray(TT), None, float(rm0), out, "kabsch_align")))
@@ -1701,7 +1866,7 @@ def evaluate(case, out: Outcome, pend):
                 flat = case["fam"] in ("planar", "collinear")  # mirror image = proper rotation with the same atom map
                 if not case["mirrored"] or flat or bool(sol.mirror):
                     oracle_recovery(case, case_id, out, R, rm, near, slack, sol.rotation, sol.shift, amap, bool(sol.mirror),
-                                    apply_recipe(C, sol.shift, sol.rotation, amap, bool(sol.mirror)))
+                                    apply_recipe(C, sol.shift, sol.rotation, amap, bool(sol.mirror)), pend)
                 if case["mirrored"] and chiral:
                     if kwargs["run_mirror"]:
                         out.count("mirror:chiral_requested")
@@ -1859,7 +2024,7 @@ def evaluate_molecule(case, case_id, out, pend, R, n):
                                  detail="Molecule.align's returned molecule is not superimposed on the reference atom by atom"))
             amap = [int(x) for x in mill.atommap]
             oracle_recovery(case, case_id, out, Rg, rm, near, slack, mill.rotation, mill.shift, amap, bool(mill.mirror),
-                            apply_recipe(Cg, mill.shift, mill.rotation, amap, bool(mill.mirror)))
+                            apply_recipe(Cg, mill.shift, mill.rotation, amap, bool(mill.mirror)), pend)
     for ent in rec.calls:
         process_b787_call(ent, case_id, out, pend)
     out.sample({"route": "molecule", "n": n, "family": case["fam"], "perm": pm, "mirrored": case["mirrored"], "rmsd": float(adata["rmsd"]), "mirror": bool(mill.mirror)})
@@ -1898,6 +2063,8 @@ def run_model_chunks(ctx: Ctx, lines, nproc=4):
 
 
 def run_cases(ctx: Ctx, cases, out: Outcome):
+    global MODEL_AVAILABLE
+    MODEL_AVAILABLE = bool(ctx.model_available)
     pend = []
     for i, case in enumerate(cases):
         case.setdefault("seed", (ctx.seed * 7919 + i * 104729) % (2**31))
